@@ -84,7 +84,7 @@ void h_run(Case &c) {
       else if (dup) CHECK(c, rc == -1 && errno == EBUSY, "register", "%s: duplicate name must fail with EBUSY: errno %d", what.c_str(), errno);
       else { CHECK(c, rc == 0 && id == nextid, "register", "%s: id %u, expected %u", what.c_str(), id, nextid); model[id] = Attr{nm, fl, {}}; nextid++; c.cls("op:register"); }
     } else if (k <= 6) {
-      hwloc_memattr_id_t id = ids[o.raw() % ids.size()]; Attr &a = model[id]; hwloc_obj_t node = hwloc_get_obj_by_type(t, HWLOC_OBJ_NUMANODE, o.raw() % nn); uint64_t val = o.chance(1, 10) ? ((uint64_t)o.raw() << 20) : o.range(1, 50);
+      hwloc_memattr_id_t id = ids[o.raw() % ids.size()]; Attr &a = model[id]; hwloc_obj_t node = hwloc_get_obj_by_type(t, HWLOC_OBJ_NUMANODE, o.raw() % nn); uint64_t val = o.chance(1, 10) ? ((uint64_t)o.raw() << 20) : o.chance(1, 5) ? 0 : o.range(1, 50);   /* zero is a value like any other */
       struct hwloc_location loc; hwloc_bitmap_t b = hwloc_bitmap_alloc(); bool needi = a.flags & HWLOC_MEMATTR_FLAG_NEED_INITIATOR; Init in; in.val = val; in.objgp = 0; in.objtype = 0; bool useobj = o.chance(1, 4);
       USet curroot; to_uset(hwloc_get_root_obj(t)->cpuset, curroot);
       if (useobj) { hwloc_obj_t x = sel_obj_with_sets(o, t); if (hwloc_bitmap_iszero(x->cpuset)) x = hwloc_get_root_obj(t); loc.type = HWLOC_LOCATION_TYPE_OBJECT; loc.location.object = x; in.iscpuset = false; in.objgp = x->gp_index; in.objtype = x->type; }
